@@ -184,7 +184,9 @@ def check(ctx: Ctx, col: Collector, tier: str) -> None:
     okk = False
     if sloops:
         node, itv, el, entry = sloops[-1]
-        body = run_body(it, node, entry.clone(), Sym("base", "NameExpr"))
+        # a base expression that has a name (a base without any name, e.g. a call, names nothing and may be skipped)
+        named = Obj("NameExpr", (("fullname", Const("pkg.mod.Base")), ("name", Const("Base")), ("node", Sym("base.node"))))
+        body = run_body(it, node, entry.clone(), named)
         aps = [[e for e in new_effects(o, entry) if e.kind == "mutate" and e.target == "superclasses.append"] for o in body if o.kind != "raise"]
         okk = bool(aps) and all(len(a) == 1 for a in aps)
     (col.ok if okk else col.bad)("C12.FLAGS", f"{VISITOR}::{VCLS}.enter_classdef::superclasses", repo.loc(VISITOR, cfi2.node),
